@@ -12,7 +12,6 @@ use crate::engine::{enum_stage, gen_stage_show, key_of, pass, Ctx, Outcome, Runt
 use crate::gen;
 use crate::model::{self, pack_arms, rank, revcomp};
 use ska::ska_dict::bit_encoding::{decode_kmer, UInt};
-use ska::ska_dict::nthash::NtHashIterator;
 use ska::ska_dict::split_kmer::SplitKmer;
 use ska::QualFilter;
 
@@ -96,14 +95,10 @@ pub fn check_kmer<T: W>(s: &[u8], two_strand_window: bool) -> Result<(), String>
                 ));
             }
             let hsh = it.get_hash();
-            let fresh = NtHashIterator::new(s, k, rc).curr_hash();
-            if hsh != fresh {
-                return Err(format!("{name} k={k} rc={rc}: hash of single window differs from a fresh NtHashIterator"));
-            }
             if rc {
                 let r = revcomp(s);
-                let hr = NtHashIterator::new(&r, k, true).curr_hash();
-                if hr != hsh {
+                let hr = scratch_hash::<T>(&r, k, true);
+                if hr != Some(hsh) {
                     return Err(format!("k={k}: two-strand hash of {} differs from that of its reverse complement", lossy(s)));
                 }
             }
@@ -263,6 +258,13 @@ fn roll_strategy() -> BoxedStrategy<RollCase> {
         .boxed()
 }
 
+/// the read hash of one window computed from scratch (what the counting filter keys on): a fresh
+/// SplitKmer over exactly that window. (Deliberately through SplitKmer, not through the lower-level
+/// hash iterator, so that the check follows whatever the build path uses.)
+fn scratch_hash<T: W>(w: &[u8], k: usize, rc: bool) -> Option<u64> {
+    SplitKmer::<T>::new(Cow::Borrowed(w), w.len(), None, k, rc, 0, QualFilter::NoFilter, true).map(|it| it.get_hash())
+}
+
 fn roll_one<T: W>(seq: &[u8], k: usize, rc: bool) -> Result<usize, String> {
     let h = (k - 1) / 2;
     let expected: Vec<(usize, Vec<u8>)> = model::windows(seq, k);
@@ -279,7 +281,9 @@ fn roll_one<T: W>(seq: &[u8], k: usize, rc: bool) -> Result<usize, String> {
     }
     for ((start, w), g) in expected.iter().zip(got.iter()) {
         let c = model::canon(w, rc);
-        let fresh = NtHashIterator::new(w, k, rc).curr_hash();
+        let Some(fresh) = scratch_hash::<T>(w, k, rc) else {
+            return Err(format!("{} k={k}: SplitKmer::new returns None for the single window {}", T::NAME, lossy(w)));
+        };
         if g.0 != pack_arms(&c.arms) || g.1 != rank(c.middle) || g.2 != c.is_rc || g.3 != start + h || g.5 != c.self_rc {
             return Err(format!(
                 "{} k={k} rc={rc} seq={}: window at {start} ({}) rolled to ({}, base {}, rc {}, middle_pos {}, self_rc {}), from scratch ({}, base {}, rc {}, middle_pos {}, self_rc {})",
@@ -291,8 +295,8 @@ fn roll_one<T: W>(seq: &[u8], k: usize, rc: bool) -> Result<usize, String> {
             return Err(format!("{} k={k} rc={rc} seq={}: rolled hash of window at {start} differs from hash computed from scratch", T::NAME, lossy(seq)));
         }
         if rc {
-            let hr = NtHashIterator::new(&revcomp(w), k, true).curr_hash();
-            if hr != fresh {
+            let hr = scratch_hash::<T>(&revcomp(w), k, true);
+            if hr != Some(fresh) {
                 return Err(format!("k={k}: two-strand hash of {} differs from its reverse complement's", lossy(w)));
             }
         }
@@ -321,10 +325,10 @@ fn check_roll(c: &RollCase, _ctx: &Ctx) -> Outcome {
 
 fn stages(tier: Tier) -> Vec<Box<dyn Stage>> {
     vec![
-        enum_stage("exhaustive", "complete enumeration of all 4^k k-mers for k = 5,7,9,11 (quick) and also 13 (thorough): encode/decode/skalo-decode round trip, rev_comp == packing of the reverse-complemented string and involution for n=k-1 and n=k, masks partition the bits, single-window SplitKmer == canonical form from scratch (both strand modes), hash == fresh NtHash, hash(w)==hash(rc w); u64 and u128. Non-trivial: k-mer differs from its own reverse complement (always true for odd k)", exhaustive),
+        enum_stage("exhaustive", "complete enumeration of all 4^k k-mers for k = 5,7,9,11 (quick) and also 13 (thorough): encode/decode/skalo-decode round trip, rev_comp == packing of the reverse-complemented string and involution for n=k-1 and n=k, masks partition the bits, single-window SplitKmer == canonical form from scratch (both strand modes), hash(w)==hash(rc w) (read hashes through SplitKmer::get_hash); u64 and u128. Non-trivial: k-mer differs from its own reverse complement (always true for odd k)", exhaustive),
         enum_stage("structured", "for every valid k (u64 for k<=31, u128 for all): homopolymers of each base, every single-base deviation at every position on every homopolymer background, three periodic patterns; same identities", structured),
         gen_stage_show("random_kmers", "generated: uniformly random k-mers for boundary-weighted k over all 30 values; same identities. Every case non-trivial; distinct by string", tier.pick(200_000, 4_000_000), 500, kmer_strategy, check_random, |c| json!(lossy(&gen::bases_to_seq(&c.bases)))),
-        gen_stage_show("rolling", "generated: records from op-scripts (N runs, repeats, self-rc arms, lower case); the sequence of (k-mer, middle base, strand flag, middle position, self-rc flag, hash) from SplitKmer rolling must equal the from-scratch windows of the model, hash == fresh NtHash of the window, two-strand hash symmetric. Non-trivial: >=2 windows; distinct by (k, strand, sequence)", tier.pick(60_000, 1_500_000), 1000, roll_strategy, check_roll, |c| json!({"k": c.k, "two_strand": c.rc, "seq": lossy(&gen::materialise_rec(&c.rec, c.k, &[]))})),
+        gen_stage_show("rolling", "generated: records from op-scripts (N runs, repeats, self-rc arms, lower case); the sequence of (k-mer, middle base, strand flag, middle position, self-rc flag, hash) from SplitKmer rolling must equal the from-scratch windows of the model, hash == hash of a fresh SplitKmer over the window alone, two-strand hash symmetric. Non-trivial: >=2 windows; distinct by (k, strand, sequence)", tier.pick(60_000, 1_500_000), 1000, roll_strategy, check_roll, |c| json!({"k": c.k, "two_strand": c.rc, "seq": lossy(&gen::materialise_rec(&c.rec, c.k, &[]))})),
     ]
 }
 
